@@ -128,6 +128,8 @@ drive_dimacs!(drive_cnf_ign32, cnf, i32, true, |c: &&[i32]| format!("{:?}", c), 
 drive_dimacs!(drive_wcnf_ign, wcnf, isize, true, |c: &(u64, &[isize])| format!("{:?}", c), |w: &mut DeferredWriter, c: &(u64, &[isize])| flussab_cnf::wcnf::write_clause(w, c.0, c.1));
 drive_dimacs!(drive_gcnf_ign, gcnf, i16, true, |c: &(usize, &[i16])| format!("{:?}", c), |w: &mut DeferredWriter, c: &(usize, &[i16])| flussab_cnf::gcnf::write_clause(w, c.0, c.1));
 drive_dimacs!(drive_wcnf, wcnf, isize, false, |c: &(u64, &[isize])| format!("{:?}", c), |w: &mut DeferredWriter, c: &(u64, &[isize])| flussab_cnf::wcnf::write_clause(w, c.0, c.1));
+drive_dimacs!(drive_wcnf16, wcnf, i16, false, |c: &(u64, &[i16])| format!("{:?}", c), |w: &mut DeferredWriter, c: &(u64, &[i16])| flussab_cnf::wcnf::write_clause(w, c.0, c.1));
+drive_dimacs!(drive_wcnf16_ign, wcnf, i16, true, |c: &(u64, &[i16])| format!("{:?}", c), |w: &mut DeferredWriter, c: &(u64, &[i16])| flussab_cnf::wcnf::write_clause(w, c.0, c.1));
 drive_dimacs!(drive_gcnf, gcnf, i16, false, |c: &(usize, &[i16])| format!("{:?}", c), |w: &mut DeferredWriter, c: &(usize, &[i16])| flussab_cnf::gcnf::write_clause(w, c.0, c.1));
 
 fn drive_satlog_with(reader: DeferredReader<'static>, sink: &mut Sink, ignore: bool) -> End {
@@ -491,6 +493,7 @@ const BTOR2_TOKENS: &[&[u8]] = &[
     b"slice", b"uext", b"const", b"constd", b"consth", b"one", b"ones", b"zero", b"101", b"ff", b"name", b";", b"; c", b"x", b"eq", b"concat",
     // lane boundaries of the 8-byte lowercase kernel: bytes next to `a`..`z`, upper case, runs of 7, 8 and 9 letters
     b"az", b"a`", b"z{", b"aZ", b"abcdefg", b"abcdefgh", b"abcdefghi", b"sort{", b"inpuT",
+    b"input\xe2\x80\x83", b"not\xe9", b"sort\xe1", b"constraint\xf0\x9f\x98\x80", b"ab\xfa", b"ab\xfb",
 ];
 const BTOR2_DOCS: &[&[u8]] = &[
     b"1 sort bitvec 1\n2 input 1 a ; comment\n3 state 1\n4 init 1 3 2\n5 next 1 3 2\n6 bad 2\n7 constraint 2\n",
@@ -598,12 +601,17 @@ const AIG_DOCS: &[&[u8]] = &[
     b"aig 0 0 0 0 0 0 0 1\n67108864\n",
     b"aig 3 1 1 1 1\n6 1\n6\n\x02\x02c",
     b"aig 3 1 1 1 1\n6 1\n6\n\x02\xff\xff\xff\xff\xff\xff\xff\xff\xff\xff\xff\x02",
+    // one and-gate whose second delta has two bytes (0x80 0x0a) and whose bytes contain line feeds: delivered "line by line" the gate is
+    // complete at the end of the second piece, a decoder that prefetches the longest encoding pulls the symbol table first (C09)
+    b"aig 1300 1299 0 0 1\n\x0a\x80\x0ai0 x\nc\nhi\n",
 ];
 
 pub const FORMATS: &[Fmt] = &[
     Fmt { name: "btor2", drive: drive_btor2, tokens: BTOR2_TOKENS, docs: BTOR2_DOCS, text: true, streaming: true, item_roundtrip: true, has_writer: true },
     Fmt { name: "cnf", drive: drive_cnf, tokens: CNF_TOKENS, docs: CNF_DOCS, text: true, streaming: true, item_roundtrip: false, has_writer: true },
     Fmt { name: "cnf8", drive: drive_cnf_ign, tokens: CNF8_TOKENS, docs: CNF8_DOCS, text: true, streaming: true, item_roundtrip: false, has_writer: true },
+    Fmt { name: "wcnf16", drive: drive_wcnf16, tokens: WCNF_TOKENS, docs: WCNF_DOCS, text: true, streaming: true, item_roundtrip: false, has_writer: true },
+    Fmt { name: "wcnf16_ign", drive: drive_wcnf16_ign, tokens: WCNF_TOKENS, docs: WCNF_DOCS, text: true, streaming: true, item_roundtrip: false, has_writer: true },
     Fmt { name: "wcnf", drive: drive_wcnf, tokens: WCNF_TOKENS, docs: WCNF_DOCS, text: true, streaming: true, item_roundtrip: false, has_writer: true },
     Fmt { name: "gcnf", drive: drive_gcnf, tokens: GCNF_TOKENS, docs: GCNF_DOCS, text: true, streaming: true, item_roundtrip: false, has_writer: true },
     Fmt { name: "cnf_ign", drive: drive_cnf_ign32, tokens: CNF_TOKENS, docs: CNF_DOCS, text: true, streaming: true, item_roundtrip: false, has_writer: true },
